@@ -192,6 +192,67 @@ def _reshape_validation_by_evaluation(ctx, reshape):
     return n, problems
 
 
+def _reshape_reduce_by_evaluation(ctx, reshape):
+    """(number of cases, problems) or None when not decided: ReshapeOperator(target, in_structure=tree).reduce() evaluated
+    (sa/axinterp.py) on the legal constructions of `_reshape_validation_by_evaluation`: the identity (on the input structure)
+    exactly when the target is the shape every leaf already has."""
+    import math
+
+    from ..axinterp import Interp, Obj, Raised, StructLeaf, Undecided, UNK, as_structure
+    from ..classes import CORE
+
+    world, table = ctx.world, ctx.table
+    base = table.get(f'{CORE}.AbstractLinearOperator')
+    ident = table.by_name('IdentityOperator')
+    out_fn = base.own.get('out_structure')
+    if ident is None:
+        return None
+
+    def leaf(shape, tag):
+        return StructLeaf(tuple((frozenset({f'{tag}{j}'}), n) for j, n in enumerate(shape)), 'float32')
+
+    trees = [[(2, 3)], [(6,)], [(2, 3), (2, 3)], [(6,), (2, 3)], [(2, 3), (3, 2)], [(2, 3), (2, 3), (6,)], [(1, 6)]]
+    targets = [(2, 3), (6,), (3, 2), (-1,), (2, -1), (-1, 3), (1, 6), (-1, 6)]
+
+    def normal(shape, target):
+        size = math.prod(shape)
+        if -1 in target:
+            rest = math.prod(x for x in target if x != -1)
+            if rest == 0 or size % rest:
+                return None
+            return tuple(size // rest if x == -1 else x for x in target)
+        return tuple(target) if math.prod(target) == size else None
+
+    problems: list[str] = []
+    n = 0
+    for tree in trees:
+        struct = [leaf(sh, f'l{i}_') for i, sh in enumerate(tree)]
+        struct = struct[0] if len(struct) == 1 else struct
+        for target in targets:
+            if any(normal(sh, target) is None for sh in tree):
+                continue
+            n += 1
+            it = Interp(world, table, budget=60_000)
+            it.constructible = {ident.qual}
+            if isinstance(out_fn, ast.FunctionDef):
+                it.summaries[id(out_fn)] = lambda args, kwargs, it=it: as_structure(it.call_method(args[0], 'mv', it.call_method(args[0], 'in_structure')))
+            what = f'ReshapeOperator({target}) on leaves of shapes {tree}'
+            try:
+                op = it.construct(reshape, target, in_structure=struct)
+                red = it.call_method(op, 'reduce')
+            except (Raised, Undecided):
+                return None
+            if it.degraded or red is UNK or not isinstance(red, Obj):
+                return None
+            unchanged = all(normal(sh, target) == tuple(sh) for sh in tree)
+            is_identity = red.cls is ident
+            if not is_identity and red is not op:
+                return None
+            if is_identity != unchanged:
+                problems.append(f'{what}: reduce() returns ' + ('the identity although a leaf is reshaped' if is_identity else 'the operator although no leaf changes'))
+    return (n, problems) if n >= 20 else None
+
+
 def _ravel_by_evaluation(ctx, ck, ravel) -> bool:
     """A1/A2/reduce for RavelOperator, decided by following the axes (sa/axinterp.py) for every pair (first, last) in -4..3 on
     leaves of rank 1-4 and on a pytree of two leaves of different ranks: a legal pair merges exactly the axes first..last of
